@@ -1,3 +1,3 @@
-import Driver.Loop
-/-! Driver for group `ty`: replace `[]` by this group's handlers. -/
-def main : IO Unit := TF.Driver.run []
+import Driver.Ty
+/-! Driver for group `ty` (C17, C16). -/
+def main : IO Unit := TF.Driver.run [TF.Driver.handleTy]
